@@ -230,3 +230,18 @@ def build_enum_set(wsname, eds, profile, per_shard=None):
     ws = workspace(wsname, srcs, spec)
     ok, dt, diag = cargo_build(ws, profile)
     return ws, ok, dt, diag
+
+
+def build_mixed_set(wsname, structs, eds, profile, enum_ctab=False):
+    """struct shards + enum shards in one workspace"""
+    shards = shard(structs) if structs else []
+    srcs = [rustgen.shard_source(sh) for sh in shards]
+    if eds:
+        nsh = max(1, min(len(eds), 8))
+        size = -(-len(eds) // nsh)
+        for i in range(0, len(eds), size):
+            srcs.append(rustgen.enum_shard_source(eds[i:i + size], ctab=enum_ctab))
+    spec = {"machines": [rustgen.spec_struct(s) for s in structs], "enums": [rustgen.enum_spec(e) for e in eds]}
+    ws = workspace(wsname, srcs, spec)
+    ok, dt, diag = cargo_build(ws, profile)
+    return ws, ok, dt, diag
